@@ -1,27 +1,16 @@
-"""Per-property configuration of the check pipeline."""
+"""Per-property configuration of the check pipeline: one file lib/props/Cxx.py each, defining PROP = {...}.
 
-PROPS = {
-    "C13": {
-        "gen_tables": [],
-        "rule": "ops: exhaustive outcome vectors ({full,short,zero}×{err,nil})^k for k≤3 (quick) / k≤4 (thorough) sinks, random vectors, "
-                "all Sync error subsets for ≤5 sinks, AddSync/Lock relay grid, payload classes × 4 zap writers, concurrent Lock programs; "
-                "non-trivial = ≥2 sinks with ≥2 distinct counts / ≥1 sync error / non-empty payload; distinct = distinct canonical op JSON",
-        "assumptions": ["multierr.Append keeps every non-nil error in order (checked by the oracle through multierr.Errors)",
-                        "Go's sync.Mutex provides mutual exclusion (lock_mutex is a theorem about the protocol model)"],
-    },
-    "C17": {
-        "gen_tables": [],
-        "rule": "ops: every partition into Write calls of every stream over {\\n,a,0xff} up to length 4, of sampled longer streams "
-                "(≤8 quick / ≤12 thorough, all 2^(n-1) partitions each), plus random sessions with empty writes, Syncs, level toggles and "
-                "long lines; non-trivial = ≥2 writes and ≥1 newline; distinct = distinct canonical op JSON",
-        "assumptions": ["bytes.Buffer and bytes.IndexByte behave as specified; the observer core records each message once"],
-    },
-    "C20": {
-        "gen_tables": ["LevelText"],
-        "rule": "ops: all 256 level values through every text form; level texts (names, aliases, case variants, near-misses, hostile bytes) "
-                "through UnmarshalText/AtomicLevel/ParseLevel/flag/JSON; sequences of 1–4 HTTP requests (method × content type × body/query "
-                "shapes); non-trivial = non-empty text / a request sequence that changed the level; distinct = distinct canonical op JSON",
-        "assumptions": ["bytes.ToLower is a parameter of the theorems (its image is passed to the model by the harness)",
-                        "net/http form parsing and encoding/json decoding are re-done with the standard library only by the harness (refDecode) and handed to the model"],
-    },
-}
+keys: gen_tables (Gen tables whose well-formedness counts as an obligation), rule (how cases are generated and what makes one
+non-trivial/distinct), assumptions, race (build the harness with -race), targets (extra lake targets), technique / level_text /
+level_note (MANIFEST texts), unclaimed (reason string: property listed under not_applicable instead of claimed).
+"""
+import importlib.util, os
+
+PROPS = {}
+_d = os.path.join(os.path.dirname(os.path.abspath(__file__)), "props")
+for _fn in sorted(os.listdir(_d)):
+    if _fn.endswith(".py") and _fn[0] == "C":
+        _spec = importlib.util.spec_from_file_location("zvprop_" + _fn[:-3], os.path.join(_d, _fn))
+        _m = importlib.util.module_from_spec(_spec)
+        _spec.loader.exec_module(_m)
+        PROPS[_fn[:-3]] = _m.PROP
